@@ -141,3 +141,16 @@ Definition produce_ok (c : codec) (close_opt : bool) (wr : option (wstate * bool
       end
     end
   end.
+
+(* ---------- JSON / XML / YAML round trip: number slots ---------- *)
+(* The encoders are not modelled. What the property says about a number that travels through a
+   producer and a consumer is stated on texts: the harness walks the value it gave to the producer
+   and the value the consumer rebuilt in one fixed order (struct fields in declaration order, map
+   keys sorted, elements by index, through pointers and interfaces) and prints every leaf as
+   path = kind : exact decimal text. The clause holds when no call failed and the two lists are the
+   same texts, byte for byte: a leaf that went through a float64 on the way shows its rounded
+   digits and differs. *)
+Definition leaves_preserved (want got : list bytes) : bool := list_eqb bytes_eqb want got.
+
+Definition number_slots_ok (panicked failed : bool) (want got : list bytes) : bool :=
+  negb panicked && negb failed && negb (is_nilb want) && leaves_preserved want got.
